@@ -642,8 +642,70 @@ func c16EnumTwo(res *c16Ctx) int {
 	return count
 }
 
+// enum-grid: fixed lattice truth in the spirit of "several outers in a row": the triangular hole
+// of the western square has vertices at exactly the latitudes of pass-through vertices of the
+// hexagon and of the staircase east of it. split=false: every ring one closed way, all 120
+// member orders. split=true: every outer in two pieces (one reversed), 8 members: all 40320
+// orders when perms<=0, else every "outer X listed last" rotation of perms fixed-PRNG orders.
+func c16EnumGrid(res *c16Ctx, split bool, perms int) int {
+	const step, bx, by = 10_000, 123_000_000, 456_000_000
+	mk := func(cs ...[2]int64) []polyg.Pt {
+		out := make([]polyg.Pt, len(cs))
+		for i, c := range cs {
+			out[i] = polyg.Pt{X: bx + c[0]*step, Y: by + c[1]*step}
+		}
+		return out
+	}
+	t := &polyg.Truth{Origin: "grid", Polys: []polyg.Poly{
+		{Outer: mk([2]int64{0, 0}, [2]int64{6, 0}, [2]int64{6, 6}, [2]int64{0, 6}),
+			Holes: [][]polyg.Pt{mk([2]int64{2, 2}, [2]int64{3, 4}, [2]int64{4, 3})}},
+		{Outer: mk([2]int64{10, 0}, [2]int64{13, 0}, [2]int64{14, 3}, [2]int64{13, 4}, [2]int64{10, 4}, [2]int64{9, 2})},
+		{Outer: mk([2]int64{17, 0}, [2]int64{22, 0}, [2]int64{22, 2}, [2]int64{23, 2}, [2]int64{23, 6}, [2]int64{17, 6}),
+			Holes: [][]polyg.Pt{mk([2]int64{18, 3}, [2]int64{19, 5}, [2]int64{20, 4})}},
+	}}
+	t.Normalise()
+	if err := t.Validate(step / 40); err != nil {
+		panic("c16 enum-grid truth invalid: " + err.Error())
+	}
+	if pairs, _ := t.AlignedPassThrough(); pairs < 3 {
+		panic("c16 enum-grid truth lost its aligned vertices")
+	}
+	nodeIDs, wayIDs := c16IDs(64)
+	cut := func(n int) polyg.RingCut {
+		if split {
+			return c16MaskCut(n, 1|1<<uint(n/2), 0b10)
+		}
+		return c16MaskCut(n, 0b10, 0)
+	}
+	closed := func(rev uint) polyg.RingCut { return c16MaskCut(3, 0b001, rev) }
+	cuts := [][]polyg.RingCut{{cut(4), closed(0)}, {cut(6)}, {cut(6), closed(1)}}
+	base := polyg.Assemble(t, cuts, nodeIDs, wayIDs)
+	np := len(base.Pieces)
+	family := "enum-grid-closed"
+	if split {
+		family = "enum-grid-split"
+	}
+	count := 0
+	if perms <= 0 {
+		c16Perms(np, func(p []int) {
+			c16Check(res, base.WithOrder(p), family)
+			count++
+		})
+		return count
+	}
+	pr := gen.New(16, "c16-enum-grid-orders") // fixed: independent of VERIF_SEED
+	for i := 0; i < perms; i++ {
+		p := pr.Perm(np)
+		for pi := range t.Polys {
+			c16Check(res, base.WithOrder(base.OuterLast(p, pi)), family)
+			count++
+		}
+	}
+	return count
+}
+
 func c16Exec(c fw.Case) *fw.Result {
-	res := c16NewCtx(c.Kind != "rand")
+	res := c16NewCtx(c.Kind != "rand" && c.Kind != "grid")
 	switch c.Kind {
 	case "rand":
 		n := int(c.Int("n"))
@@ -659,6 +721,60 @@ func c16Exec(c fw.Case) *fw.Result {
 		if res.Sample == nil {
 			res.Sample = map[string]any{"truths": n}
 		}
+	case "grid":
+		n := int(c.Int("n"))
+		for i := 0; i < n; i++ {
+			r := gen.New(gen.Sub(c.Seed, "c16grid", i), "c16g")
+			t, _ := polyg.GenerateGrid(r)
+			base := polyg.GridInstance(r, t)
+			pairs, others := t.AlignedPassThrough()
+			fam := "grid"
+			if pairs > 0 {
+				fam = "grid-al"
+				res.Add("grid_truths_with_aligned_pass_through_vertex", 1)
+			}
+			res.Add("grid_truths", 1)
+			res.Add("grid_aligned_pairs", int64(pairs))
+			np := len(base.Pieces)
+			var orders [][]int
+			if np <= 5 {
+				c16Perms(np, func(p []int) { orders = append(orders, append([]int(nil), p...)) })
+				res.Add("grid_truths_all_member_orders", 1)
+			} else {
+				for pi := range t.Polys {
+					orders = append(orders, base.OuterLast(r.Perm(np), pi), base.OuterLast(r.Perm(np), pi))
+				}
+				orders = append(orders, r.Perm(np), r.Perm(np))
+			}
+			for _, o := range orders {
+				in := base.WithOrder(o)
+				// which polygon owns the last listed outer member?
+				last := -1
+				for _, x := range o {
+					if in.Pieces[x].Ring == 0 {
+						last = in.Pieces[x].Poly
+					}
+				}
+				for own, qs := range others {
+					if qs[last] && own != last {
+						res.Add("grid_inputs_aligned_other_outer_listed_last", 1)
+						break
+					}
+				}
+				c16Check(res, in, fam)
+				res.Add("grid_inputs", 1)
+			}
+			if res.Sample == nil && len(base.Verts) <= 20 && pairs > 0 {
+				res.Sample = base.Describe()
+			}
+		}
+		if res.Sample == nil {
+			res.Sample = map[string]any{"grid_truths": n}
+		}
+	case "enum-grid":
+		cnt := c16EnumGrid(res, c.Int("split") == 1, int(c.Int("perms")))
+		res.Sample = map[string]any{"family": "three outers in a row on an integer lattice (square with hole, hexagon, staircase with hole), hole vertices at the latitudes of pass-through vertices of the outers east of them; member orders enumerated", "split": c.Int("split"), "inputs": cnt}
+		res.Add("enumerated_inputs", int64(cnt))
 	case "enum-ring":
 		cnt := c16EnumRing(res, int(c.Int("n")), uint(c.Int("lo")), uint(c.Int("hi")))
 		res.Sample = map[string]any{"family": "single outer n-gon: all cut sets x reversal masks x member orders", "n": c.Int("n"), "cut_masks": []int64{c.Int("lo"), c.Int("hi")}, "inputs": cnt}
@@ -714,6 +830,19 @@ func init() {
 			cs = append(cs, fw.Case{Kind: "enum-hole", P: map[string]int64{"split": 0}})
 			cs = append(cs, fw.Case{Kind: "enum-hole", P: map[string]int64{"split": 1}})
 			cs = append(cs, fw.Case{Kind: "enum-two"})
+			gridCases, gridPer := 40, 10
+			if tier == "thorough" {
+				gridCases, gridPer = 300, 40
+			}
+			for i := 0; i < gridCases; i++ {
+				cs = append(cs, fw.Case{Kind: "grid", Seed: gen.Sub(seed, "c16gridcase", i), P: map[string]int64{"n": int64(gridPer)}})
+			}
+			cs = append(cs, fw.Case{Kind: "enum-grid", P: map[string]int64{"split": 0}})
+			if tier == "thorough" {
+				cs = append(cs, fw.Case{Kind: "enum-grid", P: map[string]int64{"split": 1, "perms": 0}})
+			} else {
+				cs = append(cs, fw.Case{Kind: "enum-grid", P: map[string]int64{"split": 1, "perms": 300}})
+			}
 			return fw.Number(cs)
 		},
 		Exec:       c16Exec,
